@@ -302,12 +302,50 @@ def exclprov(run, p):
                 det['patterns'] = det['patterns'] and not isinstance(a, ast.Constant) and 'extract' in dep_closure(f.node, names_in(a))
         ok = all(det.values())
     run.ob('C12-EXCLPROV', '%s::%s' % (f.rel, f.short), ok, 'self.exclusions[name] = %s; provenance %s' % (norm(v), det), fn=f, node=s)
-    # the diff-derived inputs: common = both-sided differing lines, removals = one-sided lines
+    # the diff-derived inputs: common = both-sided differing lines, removals = one-sided lines - evaluated with stand-in diffs
+    from ..pyeval import Interp, Model, Obj, Unsupported, Raised, FakeFS, pure_sys
     g = c.methods['generate_exclusions_for_file']
-    src = ast.unparse(g.node).replace(' ', '')
-    ok2 = 'common.append(p.left_content)' in src and 'common.append(p.right_content)' in src and 'removals.append(p.left_content)' in src \
-        and 'find_diff_lines(first,later,filetype)' in src
-    run.ob('C12-EXCLPROV', '%s::%s' % (g.rel, g.short), ok2, 'common/removals are filled only from the pairs find_diff_lines reports between run 1 and a later run', fn=g)
+
+    class Pair(Model):
+        def __init__(self, l, r, lc, rc):
+            self.left_line_num, self.right_line_num, self.left_content, self.right_content = l, r, lc, rc
+
+    class FT(Model):
+        text, binary, encoding = True, False, None
+    diffs = {2: [Pair(3, 3, 'took 1.5s\n', 'took 2.5s\n'), Pair(5, None, 'only in run 1\n', None), Pair(None, 6, None, 'only in run 2\n')],
+             3: [Pair(3, 3, 'took 1.5s\n', 'took 9s\n')]}
+    fs = FakeFS({'/r/ref/x/out.txt': 'a\n', '/r/ref/x/2/out.txt': 'a\n', '/r/ref/x/3/out.txt': 'a\n'})
+    o = Obj(c)
+    o.attrs.update(refdir='/r/ref/x', iterations=3, verbose=False)
+    I = Interp(p)
+    I.extra_names.update({'os': fs.os(), 'open': fs.open, 'sys': pure_sys()})
+
+    def hook(m, args, kwargs, selfobj):
+        if m.name == 'find_diff_lines':
+            run_dir = [k for k in diffs if '/%d/' % k in args[1]]
+            return True, list(diffs[run_dir[0]]) if run_dir else []
+        if m.name == 'protected_readlines':
+            return True, ['a\n']
+        if m.name == '__init__' and m.cls is not None and m.cls.name == 'FileType':
+            return True, None
+        if m.name in ('check_for_specific_references',):
+            return True, {}
+        if m.name == 'update_specifics':
+            return True, None
+        return False, None
+    I.on_call = hook
+    try:
+        res = I.call(g, ['out.txt'], selfobj=o)
+        ft_, exc_ = res
+        specifics, common, removals = exc_
+    except (Unsupported, Raised, TypeError, ValueError) as e:
+        raise AnalysisError('generate_exclusions_for_file is not evaluable: %s' % e)
+    want_common = ['took 1.5s\n', 'took 2.5s\n', 'took 1.5s\n', 'took 9s\n']
+    want_rem = ['only in run 1\n', 'only in run 2\n']
+    ok2 = list(common) == want_common and list(removals) == want_rem
+    run.ob('C12-EXCLPROV', '%s::%s' % (g.rel, g.short), ok2,
+           'with stand-in differences between run 1 and runs 2, 3: lines that differ on both sides become pattern inputs %r, one-sided '
+           'lines become removals %r%s' % (list(common), list(removals), '' if ok2 else ' - expected %r and %r' % (want_common, want_rem)), fn=g)
     run.floor('C12-EXCLPROV', 2, 2)
 
 
